@@ -114,6 +114,7 @@ type kase struct {
 	afterFailed      bool // the same caller process first launches a daemon that dies before Done()
 	distinctNames    bool // concurrent launches ask for handlers registered under different names
 	cleansEnv        int  // the handler changes its own environment before Done(): 1 unsets ENV_DAEMON_*, 2 os.Clearenv()
+	relativeArgv0    bool // the caller child is started through a relative path (./prog)
 }
 
 func (k kase) name(i int) string {
@@ -137,6 +138,9 @@ func (k kase) String() string {
 	}
 	if k.cleansEnv > 0 {
 		s += []string{"", " handlerUnsetsDaemonVariables", " handlerClearsItsEnvironment"}[k.cleansEnv]
+	}
+	if k.relativeArgv0 {
+		s += " callerStartedAsDotSlashProg"
 	}
 	return s
 }
@@ -213,6 +217,11 @@ func runCase(k kase) string {
 			go func(i int) {
 				defer wg.Done()
 				cmd := exec.Command(selfExe)
+				if k.relativeArgv0 {
+					// the calling program was started as ./prog from its own directory: os.Args[0] is a relative path
+					cmd = exec.Command("./" + filepath.Base(selfExe))
+					cmd.Dir = filepath.Dir(selfExe)
+				}
 				cmd.Env = os.Environ()
 				for kk, v := range env {
 					cmd.Env = append(cmd.Env, kk+"="+v)
@@ -440,7 +449,7 @@ func TestGrid(t *testing.T) {
 				if !rt.Thorough() && child && d == 150 && p == 150 {
 					continue // keep the quick tier short; covered by the thorough tier
 				}
-				k := kase{delayMs: d, pauseMs: p, concurrent: 1, childCaller: child, afterFailed: (d+p)%80 == 45, cleansEnv: idx % 3}
+				k := kase{delayMs: d, pauseMs: p, concurrent: 1, childCaller: child, afterFailed: (d+p)%80 == 45, cleansEnv: idx % 3, relativeArgv0: child && idx%4 == 1}
 				if msg := runCase(k); msg != "" {
 					if strings.HasPrefix(msg, "harness:") {
 						rt.Inconclusivef(t, "%s: %s", k, msg)
@@ -488,6 +497,7 @@ func TestGenerated(t *testing.T) {
 		}
 		k.distinctNames = k.concurrent >= 2 && rapid.IntRange(0, 2).Draw(t, "distinctNames") > 0
 		k.cleansEnv = rapid.SampledFrom([]int{0, 0, 0, 1, 2}).Draw(t, "handlerCleansEnv")
+		k.relativeArgv0 = k.childCaller && rapid.IntRange(0, 2).Draw(t, "relativeArgv0") == 0
 		msg := runCase(k)
 		if strings.HasPrefix(msg, "harness:") {
 			ev.Inconclusive(1)
@@ -507,6 +517,9 @@ func TestGenerated(t *testing.T) {
 		}
 		if k.cleansEnv > 0 {
 			ev.Label("handler_changes_its_own_environment_before_Done")
+		}
+		if k.relativeArgv0 {
+			ev.Label("caller_started_through_a_relative_path")
 		}
 		ev.Case(k.nontrivial(), ev.Hash(k.String()), k.String)
 	})
